@@ -69,15 +69,16 @@ type CmafIngestDeleteResponse struct {
 func createCmafIngesterHdlr(s *Server) func(ctx context.Context, cfi *CmafIngesterCreateRequest) (*CmafIngestCreateResponse, error) {
 	return func(ctx context.Context, cfi *CmafIngesterCreateRequest) (*CmafIngestCreateResponse, error) {
 		nr, err := s.cmafMgr.NewCmafIngester(cfi.Body)
-		if err == nil {
-			s.cmafMgr.startIngester(nr)
+		if err != nil {
+			return nil, huma.Error400BadRequest("could not create CMAF ingest", err)
 		}
+		s.cmafMgr.startIngester(nr)
 		resp := &CmafIngestCreateResponse{}
 		resp.Body.DestRoot = cfi.Body.DestRoot
 		resp.Body.DestName = cfi.Body.DestName
 		resp.Body.URL = cfi.Body.URL
 		resp.Body.ID = fmt.Sprintf("%d", nr)
-		return resp, err
+		return resp, nil
 	}
 }
 
